@@ -351,6 +351,25 @@ func Create(st variable.Storer, seed string, scripts []string) (r *Real, err err
 	return &Real{DR: dr}, nil, ""
 }
 
+// CreateFrom is Create with readers supplied by the caller.
+func CreateFrom(st variable.Storer, seed string, readers []io.Reader) (r *Real, err error, panicked string) {
+	defer func() {
+		if p := recover(); p != nil {
+			panicked = fmt.Sprintf("%v\n%s", p, debug.Stack())
+		}
+	}()
+	var dr *ysgo.DialogueRunner
+	if st == nil {
+		dr, err = ysgo.NewDialogueRunner(nil, seed, readers...)
+	} else {
+		dr, err = ysgo.NewDialogueRunner(st, seed, readers...)
+	}
+	if err != nil {
+		return nil, err, ""
+	}
+	return &Real{DR: dr}, nil, ""
+}
+
 // Install registers model functions / commands on the runner.
 func (r *Real) Install(funcs map[string]model.Fn, cmds map[string]func([]model.Val) error) {
 	for k, f := range funcs {
